@@ -300,6 +300,27 @@ def r5_sibling_guards(rule, root=None):
 from . import C11  # noqa: E402
 
 
+
+def r_contains(rule, root=None):
+    """Interval::contains(v) is lower <= v <= upper with both ends included: the choice functions decide on
+    `!self.contains(0.0)`, and an interval that touches zero must stay undecided"""
+    fn = A.find_fn("fidget-core/src/types/interval.rs", "contains", self_ty="Interval", root=root)
+    cmps = [b for b in A.find(fn["body"], "Binary") if b["op"] in ("<", "<=", ">", ">=")]
+    conj = [b for b in A.find(fn["body"], "Binary") if b["op"] in ("&&", "||")]
+    canon = set()
+    for c in cmps:
+        l_, r_, op = str(A.ftxt(c["left"])), str(A.ftxt(c["right"])), c["op"]
+        if op in (">", ">="):
+            l_, r_, op = r_, l_, {">": "<", ">=": "<="}[op]
+        canon.add((l_, op, r_))
+    params = [A.binding_name(i["pat"]) for i in fn["sig"]["inputs"] if isinstance(i, dict) and "pat" in i and A.binding_name(i["pat"]) != "self"]
+    v = params[-1] if params else "v"
+    if canon == {("self.lower", "<=", v), (v, "<=", "self.upper")} and [c["op"] for c in conj] == ["&&"]:
+        rule.ok("Interval::contains(v) = lower <= v && v <= upper (both ends included)", file="fidget-core/src/types/interval.rs", line=fn["ln"])
+    else:
+        rule.bad("contains", "Interval::contains tests %s: the bounds belong to the interval, so it must be lower <= v && v <= upper - with a strict test [0, k] does not contain 0 and `and` / `or` / `not` decide on it" % sorted(canon), A.where(fn))
+
+
 def run(ctx):
     r = ctx.rule("R1", "monotone interval ops take each result bound from the bound their monotonicity dictates", 16)
     ctx.guarded(r, r1_variance)
@@ -327,12 +348,15 @@ def run(ctx):
     # exact for every finite angle (C11 reads the same rule for the `unreachable!()` default)
     r = ctx.rule("R1q", "the trig quadrant of a bound is reduced in f32 (floor, rem_euclid(4.0)) before it is narrowed", 1)
     ctx.guarded(r, C11.r2b_unreachable_ranges)
+    r = ctx.rule("R5b", "Interval::contains includes both bounds (what the choice functions decide on)", 1)
+    ctx.guarded(r, r_contains)
     r = ctx.rule("R5", "paired guards agree: sin / cos early exits (whole period with >=), mix's single-bit-pattern tests, atan2's branch cut", 5)
     ctx.guarded(r, r5_sibling_guards)
     from .. import wgslrules as WR
 
-    r = ctx.rule("R6", "the GPU (WGSL) interval operations are enclosures: bound selection, corner products / quotients, domain guards, choices", 27)
+    r = ctx.rule("R6", "the GPU (WGSL) interval operations are enclosures: bound selection, corner products / quotients, domain guards, choices, guard predicates", 29)
     ctx.guarded(r, WR.r_interval_ops)
+    ctx.guarded(r, WR.r_predicates)
     from .. import a64checks as XC
 
     r = ctx.rule("R3f", "aarch64 interval assembler: write discipline, hazards, branch targets, call helpers, frame, choice protocol", 28 + 29 + 12 + 2 + 1 + 28 + 6)
